@@ -43,7 +43,7 @@ def gen(tier, seed):
     n = 400 if tier == "quick" else 12000
     cases = []
     for i in range(n):
-        s = Session(rng, weights=W, chmax=rng.choice([2, 3, 6]), bound=rng.choice([2, 4]), via_stream=rng.choice([0.0, 0.5, 1.0]))
+        s = Session(rng, weights=W, chmax=rng.choice([2, 3, 6]), bound=rng.choice([1, 2, 4]), via_stream=rng.choice([0.0, 0.5, 1.0]))
         s.run(rng.randint(6, 30))
         cases.append(s.case("r%d" % i))
     return cases
